@@ -75,6 +75,8 @@ def tasks(tier):
         add("all", "sync-facade", 0, first, kind="S", variant="first-none")   # first event returns None, a queued one does not
         add("all", "sync-facade", 2, first, kind="S", variant="int-guards")   # truthy / falsy ints instead of bools
     add("all", "sync-facade", 1, 0, kind="S", variant="int-guards")
+    add("all", "sync-facade", 0, 0, kind="S", variant="decorated")            # one coroutine action hidden behind a plain decorator
+    add("all", "in-loop", 2, 0, kind="S", variant="decorated")
     add("all", "sync-facade", 0, 0, kind="S", variant="single-result")          # exactly one result, possibly falsy (0)
     add("all", "in-loop", 2, 0, kind="S", variant="single-result")
     add("all", "sync-facade", 0, 0, kind="A", variant="guarded-validator")    # validator and guard on the same candidate
@@ -166,6 +168,9 @@ def run(ctx, params):
     for twin in ("sync", "async"):
         am = dict(base)
         am["async"] = asyncs if twin == "async" else []
+        if variant == "decorated" and twin == "async":
+            # `on_transition` of the machine is a plain function that returns the coroutine of the real callback
+            am["async_behind_plain_decorator"] = [["machine", "on_transition"]]
         is_async = twin == "async"
         kw = dict(script_kw)
         kw["yields"] = 1 if is_async else 0
